@@ -165,7 +165,11 @@ Inductive op :=
 | SetPortPrio (i p : N)                            (* BasicInputPort::SetPriority *)
 | SetPortMode (i : N) (inherit : bool)             (* SetPriorityMode *)
 | SetInherited (i p : N)                           (* what InheritedPriority() returns *)
-| SetCaps (i : N) (b : bool).                      (* SupportsPriorities() *)
+| SetCaps (i : N) (b : bool)                       (* SupportsPriorities() *)
+| MgrStatic (i v : N)                              (* PortManager::SetPriorityStatic(input port i, v) *)
+| MgrInherit (i : N)                               (* PortManager::SetPriorityInherit(input port i) *)
+| MgrOutStatic (i v : N) | MgrOutInherit (i : N).  (* the same on output port i: an output port's own
+                                                      priority setting is not read by the universe *)
 
 Definition mem (i : N) (l : list N) : bool := existsb (N.eqb i) l.
 (* vector: find + push_back / find + erase *)
@@ -267,6 +271,22 @@ Definition admin_step (w : world) (o : op) : world :=
     let q := w_ports w i in
     with_port w i {| p_src := p_src q; p_static := p_static q; p_inherit := p_inherit q;
                      p_inherited := p_inherited q; p_caps := b |}
+  | MgrStatic i v =>
+    (* capability is FULL or STATIC here, never NONE; "if (FULL && mode != STATIC) mode = STATIC;
+       if (value > MAX) value = MAX; if (GetPriority() != value) SetPriority(value);" *)
+    let q := w_ports w i in
+    let v' := if SOURCE_PRIORITY_MAX <? v then SOURCE_PRIORITY_MAX else v in
+    with_port w i {| p_src := p_src q;
+                     p_static := if p_static q =? v' then p_static q else v';
+                     p_inherit := if p_caps q && p_inherit q then false else p_inherit q;
+                     p_inherited := p_inherited q; p_caps := p_caps q |}
+  | MgrInherit i =>
+    (* "if (capability != FULL) return; if (mode != INHERIT) mode = INHERIT;" *)
+    let q := w_ports w i in
+    with_port w i {| p_src := p_src q; p_static := p_static q;
+                     p_inherit := if p_caps q then (if p_inherit q then p_inherit q else true)
+                                  else p_inherit q;
+                     p_inherited := p_inherited q; p_caps := p_caps q |}
   | _ => w
   end.
 
